@@ -1,0 +1,30 @@
+//go:build verif
+
+// Contracts for the deductive verification in /verif (comment-only).
+package types
+
+//@ pure-iface github.com/goatnetwork/goat/x/relayer/types.IVoteMsg
+//@ pure-iface github.com/goatnetwork/goat/x/relayer/types.INonVoteMsg
+
+// The document a vote signs: chain id, sequence and epoch (little endian), method, proposer, payload.
+//@ smt (define-fun votesigndoc ((chain Bytes) (seq Int) (epoch Int) (method Bytes) (proposer Bytes) (data Bytes)) Bytes
+//@       (sha256 (bcat (bcat (bcat (bcat chain (bcat (le64 seq) (le64 epoch))) method) proposer) data)))
+
+//@ func VoteSignDoc
+//@ property C01 C02 C16
+//@ ensures doc: result == votesigndoc(chainID, sequence, epoch, method, proposer, data)
+//@ modifies nothing
+
+// ceil(2(n+1)/3) for a group of n voters and one proposer
+//@ func (*Relayer).Threshold
+//@ property C01
+//@ opt mode=fp-threshold
+//@ requires relayer != nil
+//@ ensures ceil_two_thirds: result == (2*(len(relayer.Voters)+1) + 2) / 3
+//@ modifies nothing
+
+//@ func (*Votes).Validate
+//@ property C01 C19
+//@ requires v != nil
+//@ ensures err == nil ==> len(v.Voters) <= 32 && len(v.Signature) == crypto.SignatureLength
+//@ modifies nothing
